@@ -163,16 +163,7 @@ def find_entries(f):
     return sorted(dec), sorted(acc), types
 
 
-def alpha(s, body):
-    """α-normalise a rendered provenance term: local and parameter names do not matter."""
-    s = re.sub(r"\$\w+", "$", s)
-    s = re.sub(r"\b\w+⟵", "⟵", s)
-    s = re.sub(r"\^\w+", "^", s)
-    for i in range(1, body.arg_count + 1):
-        nm = body.local_name(i)
-        if nm and nm != "self":
-            s = re.sub(r"(?<![\w.:])%s(?![\w(:])" % re.escape(nm), "%%%d" % i, s)
-    return s
+alpha = K.alpha
 
 
 class Site:
@@ -1113,28 +1104,7 @@ def load_loop_table():
 # ======================================================================================
 # guards a tabled reason leans on
 # ======================================================================================
-_DOM = {}
-
-
-def dominating_guards(f, body, bb):
-    """Branch conditions every path to block `bb` has to pass: ['<discriminant> -> <edge values that can still reach bb>']."""
-    if body.name not in _DOM:
-        _DOM[body.name] = body.dominators()
-    dom = _DOM[body.name]
-    s = K.sym_of(body)
-    out = []
-    for sb in sorted(dom.get(bb, ())):
-        t = body.term(sb)
-        if t["t"] != "switch" or sb == bb:
-            continue
-        edges = body.switch_edges(sb)
-        ok_vals = []
-        for v, tb in edges:
-            if bb in body.reachable(tb, removed_blocks=[sb]) or tb == bb:
-                ok_vals.append("else" if v is None else str(v))
-        if len(ok_vals) < len(edges):
-            out.append("%s -> %s" % (alpha(render(strip_deep(s.operand(t["discr"])))[:200], body), ",".join(ok_vals)))
-    return out
+dominating_guards = K.dominating_guards
 
 
 def site_guards(f, site):
